@@ -30,6 +30,29 @@ Calls(a) == << ToHeaderOut(a), ToVecOut(a), ToHexOut(a), HrpOut(a), ToBech32Out(
 
 ASSUME \A a \in GenAddrs : WellFormed(a) /\ PrintT(<<"VEC", ToJson([a |-> Proj(a), calls |-> Calls(a)])>>)
 
+\* Parser-side vectors of the design model (the property is silent on these
+\* inputs; a disagreement is reported as DRIFT, never as a violation): trailing
+\* and missing bytes, non-canonical and saturating varuints, unknown headers.
+ParseInputs ==
+    LET e0 == Encode(MkAddr(0, 0, H(2), H(3), <<>>))
+        e3 == Encode(MkAddr(3, 7, H(4), H(5), <<>>))
+        e6 == Encode(MkAddr(6, 2, H(6), <<>>, <<>>))
+        e14 == Encode(MkAddr(14, 0, H(7), <<>>, <<>>))
+        p4 == <<Header(4, 1)>> \o H(1)
+        p5 == <<Header(5, 0)>> \o H(8)
+    IN { <<>>, e0, e0 \o <<9>>, SubSeq(e0, 1, 56), SubSeq(e3, 1, 29), e3 \o <<0, 0>>,
+         e6 \o <<255>>, SubSeq(e6, 1, 28), e14 \o <<1, 2, 3>>, SubSeq(e14, 1, 28), <<Header(15, 15)>>,
+         p4, p4 \o <<1>>, p4 \o <<1, 2>>, p4 \o <<1, 2, 3>>, p4 \o <<1, 2, 3, 4>>, p4 \o <<129>>, p4 \o <<1, 2, 129>>,
+         p4 \o <<128, 128, 1, 128, 0, 0>>,                                             \* leading zero digits
+         p5 \o <<129, 255, 255, 255, 255, 255, 255, 255, 255, 127, 0, 0>>,               \* 2^64 - 1
+         p5 \o <<130, 128, 128, 128, 128, 128, 128, 128, 128, 0, 5, 6>>,                 \* 2^64: saturates, stops early
+         p5 \o <<255, 255, 255, 255, 255, 255, 255, 255, 255, 255, 127, 1, 2>> }
+       \cup { <<Header(t, 3)>> \o H(9) \o H(10) : t \in 9..13 }
+ParseVec(bs) == LET r == Parse(bs) IN
+    [kind |-> "parse", bytes |-> bs,
+     res |-> IF r.ok THEN [ok |-> TRUE, a |-> Proj(r.a)] ELSE [ok |-> FALSE, why |-> r.why]]
+ASSUME \A bs \in ParseInputs : PrintT(<<"VEC", ToJson(ParseVec(bs))>>)
+
 GInit == addr = NoAddr /\ out = [ev |-> "none"]
 GNext == UNCHANGED vars
 =============================================================================
